@@ -81,9 +81,14 @@ def exec_raster(c):
     arg = float(res[0]) if res[0] == res[1] == res[2] and lib.vid(c) % 2 else [float(r) for r in res]
     tf = lib.reused(ToImageStack(arg), c, t)
     snap = lib.snapshot(t)
-    stack = lib.outlives(tf, t, c)          # (one case in two: the object rasterises other trees before this stack is read)
+    if "box" in c:
+        # block rendering: only the part of space between ranges = (lo, hi) is sampled
+        lo, hi = [float(v) for v in c["box"][0]], [float(v) for v in c["box"][1]]
+        stack = np.stack(list(tf.transform(t, verbose=False, ranges=(np.array(lo), np.array(hi)))), axis=0)
+    else:
+        stack = lib.outlives(tf, t, c)          # (one case in two: the object rasterises other trees before this stack is read)
     saved_ok = 1
-    if lib.vid(c) % 4 == 0 or c.get("save"):
+    if (lib.vid(c) % 4 == 0 or c.get("save")) and "box" not in c:
         tmp = tempfile.mkdtemp(prefix="verif_img_")
         try:
             p = os.path.join(tmp, "t.tif")
@@ -152,8 +157,41 @@ def raster_cases(ctx, count):
         for a, b in res:
             den = den * b // np.gcd(den, b)
         S = int(2 * den)
-        out.append({"kind": "raster", "P": P, "pos": pos, "rad": rad, "res": [list(x) for x in res], "S": S,
-                    "resS": [int(Fraction(a, b) * S) for a, b in res], "save": save})
+        case = {"kind": "raster", "P": P, "pos": pos, "rad": rad, "res": [list(x) for x in res], "S": S,
+                "resS": [int(Fraction(a, b) * S) for a, b in res], "save": save}
+        if k % 5 == 2 and not save:
+            # a block of the tree's bounding box (a slab of two units along one axis, entered by whatever part of the tree reaches into it)
+            lo = [min(p[j] - r for p, r in zip(pos, rad)) for j in range(3)]
+            hi = [max(p[j] + r for p, r in zip(pos, rad)) for j in range(3)]
+            ax = (k // 5) % 3
+            if hi[ax] - lo[ax] >= 3:
+                a = lo[ax] + rng.randint(0, hi[ax] - lo[ax] - 2)
+                lo[ax], hi[ax] = a, a + 2
+            case["box"] = [lo, hi]
+        out.append(case)
+    # blocks entered only by the thick end of a tapering segment (a soma of radius 4 joined to a neurite of radius 1), away from its centre line
+    for j in range(6 if count < 100 else 18):
+        ax, side = j % 3, 1 if (j // 3) % 2 == 0 else -1
+        o1, o2 = (ax + 1) % 3, (ax + 2) % 3
+        child = [0, 0, 0]; child[ax] = 6 * (1 if j % 2 == 0 else -1)
+        pos = [[0, 0, 0], child]
+        rad = [4, 1]
+        lo = [min(p[q] - r for p, r in zip(pos, rad)) for q in range(3)]
+        hi = [max(p[q] + r for p, r in zip(pos, rad)) for q in range(3)]
+        sl = [o1, o2][(j // 6) % 2]
+        lo[sl], hi[sl] = (2, 4) if side == 1 else (-4, -2)
+        res = RES[j % 2]
+        den = res[0][1]
+        S = int(2 * den)
+        out.append({"kind": "raster", "P": [-1, 0], "pos": pos, "rad": rad, "res": [list(x) for x in res], "S": S,
+                    "resS": [int(Fraction(a, b) * S) for a, b in res], "save": 0, "box": [lo, hi]})
+    # a thin, tall stack: hundreds of frames (saved and read back)
+    for m, zres in ((300, (1, 100)),) + (() if count < 100 else ((512, (1, 128)),)):
+        L = 1 if m == 300 else 2
+        res = [(1, 1), (1, 1), zres]
+        S = 2 * zres[1]
+        out.append({"kind": "raster", "P": [-1, 0], "pos": [[0, 0, 0], [0, 0, L]], "rad": [1, 1], "res": [list(x) for x in res], "S": S,
+                    "resS": [int(Fraction(a, b) * S) for a, b in res], "save": 1})
     return out
 
 
